@@ -162,8 +162,14 @@ theorem tern_delta_view2_loses_tuple :
   refine ⟨_, _, _, rfl, ?_⟩
   decide
 
-/-- F24: `len_estimate` of the view [1,2] on a copy without keys divides by zero -/
-theorem tern_lenEstimate12_empty_panics : (Tern.default true true).lenEstimate12 = .panic := by
+/-- F24 (repaired in the code, `.max(1)`): `len_estimate` of the view [1,2] never divides by zero; whenever both reverse maps exist it
+returns a number, for every content -/
+theorem tern_lenEstimate12_total (t : Tern) (r1 r2) (h1 : t.rm1 = some r1) (h2 : t.rm2 = some r2) :
+    ∃ n, t.lenEstimate12 = .ok n := by
+  refine ⟨r1.length * r2.length / max (Nat.sqrt t.map.length) 1, ?_⟩
+  simp [Tern.lenEstimate12, h1, h2, unwrap, bind, Res.bind, pure]
+/-- the former witness: a copy without keys -/
+theorem tern_lenEstimate12_empty : (Tern.default true true).lenEstimate12 = .ok 0 := by
   decide
 
 /-! ## non-vacuity: the contract on a concrete run -/
@@ -198,6 +204,7 @@ example (s₀ s : St) (h₀ : St.init = .ok s₀) (h : St.run s₀ [.add 1 2, .a
 #print axioms trrel_merge_antireflexive_witness
 #print axioms tern_delta_view1_loses_tuple
 #print axioms tern_delta_view2_loses_tuple
-#print axioms tern_lenEstimate12_empty_panics
+#print axioms tern_lenEstimate12_total
+#print axioms tern_lenEstimate12_empty
 
 end AscentVerif.TrRelInd
